@@ -104,8 +104,9 @@ extern ssize_t mpt_encode_cobs(MPT_STRUCT(encode_state) *info, const struct iove
 		struct iovec tmp;
 		ssize_t pos = info->done;
 		
-		/* message in progress */
+		/* message in progress, include finished code blocks */
 		if (info->_ctx) {
+			pos -= info->_ctx - info->scratch;
 			--len;
 		}
 		tmp.iov_base = (void *) src;
@@ -119,8 +120,8 @@ extern ssize_t mpt_encode_cobs(MPT_STRUCT(encode_state) *info, const struct iove
 		info->done = pos;
 		info->scratch = 0;
 		
-		/* save start of encoder state for next message */
-		return pos;
+		/* request processed, message start may be outside current target */
+		return base->iov_len;
 	}
 	
 	/* remaining data in cobs */
